@@ -5,9 +5,9 @@ import obl_assembly as A
 def run(c):
     import clauses
     c.only_clauses = clauses.OWN["C18"]
-    if A.validate_assembly_concrete(c):
-        ct = A.conv_table_for([p for w in A.WRAPPERS_QUICK for p in w])
-        A.obl_emoji(c, ct, thorough=(c.tier == "thorough"), budget_s=1500)
+    A.validate_assembly_concrete(c)     # a mismatch makes the run inconclusive; the obligations still run, and what they find is reported only after native confirmation
+    ct = A.conv_table_for([p for w in A.WRAPPERS_QUICK for p in w])
+    A.obl_emoji(c, ct, thorough=(c.tier == "thorough"), budget_s=1500)
     A.obl_fixed_assembly(c, thorough=(c.tier == "thorough"), budget_s=1200)
     c.outside("the walk over the 321 emoticons / 1389 English / 1007 Bengali names of the emojicon tables (enumeration of concrete rows is "
               "not a solver query); the fixed-layout method's Bengali-name path is covered by C15's assembly obligation")
